@@ -1,5 +1,6 @@
 import FordModel.Proto
 import FordModel.External
+import FordModel.ExternalGraph
 namespace Ford
 open Proto Ext
 
@@ -247,6 +248,15 @@ def dispatchC16 : List Str → Option (List Str)
       | [u] =>
         if isRemote u then some ["ok".toList, ['1'], indexUrl u, (remoteBase u).url]
         else some ["ok".toList, ['0'], ['-'], ['-']]   -- a local path: nothing is fetched through urlopen
+      | _ => some ["bad-request".toList]
+    else if cmd == "c16.node".toList then
+      -- c16.node =<parent_dir> <external 0|1> <class> =<name> <+url|-> <visible 0|1>  ->  none | some <URL of the node>
+      match args with
+      | [pd, ext, cls, nm, url, vis] =>
+        match nodeUrl (pd.drop 1) { external := ext == ['1'], cls := cls, name := nm.drop 1, url := optField url,
+                                    visible := vis == ['1'] } with
+        | none => some ["none".toList]
+        | some u => some ["some".toList, u]
       | _ => some ["bad-request".toList]
     else if cmd == "c16.use".toList then
       -- c16.use <name> <nLocal> (name ext)* <nExt> (name ext)*
